@@ -241,7 +241,10 @@ impl<'input_token> StartTag<'input_token> {
         }
 
         output_handler(b"<");
-        output_handler(&self.name);
+        // NOTE: a zero-length chunk is the sink's end-of-output marker
+        if !self.name.is_empty() {
+            output_handler(&self.name);
+        }
 
         if !self.attributes.is_empty() {
             self.attributes.into_bytes(output_handler)?;
